@@ -2,14 +2,15 @@
 (* Large constraint tables (property C20): one add call with N entries in      *)
 (* which every gap is configured several times with different limits - "a gap   *)
 (* configured twice keeps its first limit" must hold for any table size.        *)
-(* Entry i of table k: gap = (7 i + k) % (MaxGap + 1), limit = the             *)
-(* ((5 i + 3 k) % |Limits|)-th limit.  Same case format as GenC.                *)
+(* Entry i of table k: gap = (7 i + k) % (MaxGap + 1); the limit index depends on  *)
+(* i and on how often the gap was configured before.  Same case format as GenC.  *)
 EXTENDS CAlpha, Json, TLC
 CONSTANTS Ns, K
 VARIABLES stage, n, k
 vars == <<stage, n, k>>
 LimSeq == AscSeq(Limits)
-Table(nn, kk) == [i \in 1..nn |-> << (7 * i + kk) % (MaxGap + 1), LimSeq[((5 * i + 3 * kk) % Len(LimSeq)) + 1] >>]
+(* the limit of a gap changes from one of its repetitions to the next *)
+Table(nn, kk) == [i \in 1..nn |-> << (7 * i + kk) % (MaxGap + 1), LimSeq[((i + (i \div (MaxGap + 1)) + kk) % Len(LimSeq)) + 1] >>]
 Init == stage = 0 /\ n = 0 /\ k = 0
 Next == stage = 0 /\ stage' = 1 /\ \E nn \in Ns, kk \in 1..K : n' = nn /\ k' = kk
 Spec == Init /\ [][Next]_vars
